@@ -397,7 +397,9 @@ func (p c11prog) stmtItems() []c11item {
 
 func (p c11prog) mainItem() c11item { return c11item{K: 'f', N: 0, Body: p.Body} }
 
-func (p c11prog) wholeItems() []c11item { return append(append([]c11item(nil), p.Decls...), p.mainItem()) }
+func (p c11prog) wholeItems() []c11item {
+	return append(append([]c11item(nil), p.Decls...), p.mainItem())
+}
 
 // c11cut cuts l into pieces at seeded positions (mean piece length about avg).
 func c11cut(r *rng, l []c11item, avg int) [][]c11item {
